@@ -80,6 +80,9 @@ func notExistTests(fn *ssa.Function, e ssa.Value) (tests []*ssa.If, notIdx []int
 		if !ok || t.kind != "is" || !isNotExistTarget(t.target) {
 			continue
 		}
+		if t.noUnwrap && wrapsItsErrors(e) {
+			continue // os.IsNotExist does not see through %w: this test never matches a wrapped error
+		}
 		idx := 1
 		if !t.trueMeans {
 			idx = 0
@@ -266,6 +269,9 @@ func ruleR16(p *Prog) []Ob {
 			inst = fmt.Sprintf("%s#%d", k, ord[k])
 		}
 		ob := Ob{Rule: "R16", Inst: inst, Props: []string{"C11"}, Pos: p.at(s.call), Func: funcLabel(fn), Nontrivial: true}
+		if g := s.call.Common().StaticCallee(); g != nil && g == p.copyFileFunc() {
+			ob.Props = append(ob.Props, "C20") // the backup of a segment whose index is missing
+		}
 		if strings.Contains(funcLabel(fn), "Check") || strings.Contains(funcLabel(fn), "Recover") {
 			ob.Props = []string{"C11", "C07"}
 		}
@@ -992,6 +998,35 @@ func (p *Prog) isReceiverAlloc(fn *ssa.Function, addr ssa.Value) bool {
 	}
 	for _, st := range allocStores(al) {
 		if st.Val == fn.Params[0] {
+			return true
+		}
+	}
+	return false
+}
+
+// wrapsItsErrors: error value e is the result of a module function some of whose error returns are
+// fmt.Errorf("%w") wrappers (os.IsNotExist / os.IsExist do not unwrap those).
+func wrapsItsErrors(e ssa.Value) bool {
+	var call *ssa.Call
+	switch x := e.(type) {
+	case *ssa.Call:
+		call = x
+	case *ssa.Extract:
+		call, _ = x.Tuple.(*ssa.Call)
+	}
+	if call == nil {
+		return false
+	}
+	g := call.Common().StaticCallee()
+	if g == nil || !inModule(g) || g.Blocks == nil {
+		return false
+	}
+	ei := errResultIndex(g)
+	for _, rt := range returnsOf(g) {
+		if ei < 0 || ei >= len(rt.Results) {
+			continue
+		}
+		if c, ok := returnOperand(rt, ei).(*ssa.Call); ok && calleeName(c.Common()) == "fmt.Errorf" {
 			return true
 		}
 	}
